@@ -456,6 +456,15 @@ func c04R7(p *core.Prog, r *core.Report) {
 	bad := false
 	ex := core.NewExplorer(p, core.Hooks{
 		Instr: func(x *core.X) {
+			// the old overflow ring adopted as it is (its entries enter the new
+			// structure at this point, all at once)
+			if st, ok := x.Ins.(*ssa.Store); ok && x.Top() {
+				if k, ok := storeKey(st.Addr); ok && k.Type != "server.LockManagerWaitQueue" && strings.Contains(core.Plain(x.Canon(st.Val).S), ".ringQueue") {
+					pushes++
+					x.Set("ring", "1")
+				}
+				return
+			}
 			c := core.StaticCallee(x.Ins)
 			if c == nil || c.Name() != "Push" || !strings.Contains(recvName(c), "RingQueue") {
 				return
